@@ -22,6 +22,10 @@ def run_mainloop(run):
     if pre["violated"] != "NoOversleep":
         raise Infra("vacuity check failed: the pre-fix cap rule should violate NoOversleep (got %s)" % pre["violated"])
     run.tlc_runs[-1]["expected_violation"] = "NoOversleep"
+    rs = tlc(run, "MainLoop", "MainLoop_resume.cfg", tag="mainloop-resume", coverage=False)
+    if rs["violated"] != "WakeNotSleptOn":
+        raise Infra("vacuity check failed: a loop that resumes an interrupted sleep should violate WakeNotSleptOn (got %s)" % rs["violated"])
+    run.tlc_runs[-1]["expected_violation"] = "WakeNotSleptOn"
     # (no ASan here: the driver interposes clock_gettime, which the sanitizer runtime uses itself)
     exe = build_driver(run, "mainloop_drv", "mainloop_drv.c", ["librfn/posix/fibre_posix.c", "librfn/posix/time_posix.c", "librfn/util.c"],
                        cc=["gcc", "-std=gnu11", "-O1", "-g", "-DLIBRFN_VERIF"])
